@@ -86,6 +86,8 @@ def compare_text(impl, model, stats, fails):
         stats["strings"] += 1
         ia = a[0] if a else "<none>"
         ib = b[0] if b else "<none>"
+        if " SF=ok" in ia:
+            stats["short_forms_checked"] += 1
         if ia.startswith("R ok"):
             stats["accepted"] += 1
             stats["distinct"].add(ia.split(" S=")[0])
@@ -100,6 +102,16 @@ def compare_text(impl, model, stats, fails):
         elif "RT=fail" in ia:
             fails.append({"kind": "property-fails-on-impl", "what": "parse(print(r)) != r", "lines": [t],
                           "string": unhx(t[2:]), "impl": ia, "model": ib})
+        elif "SF=fail" in ia or "KW=fail" in ia:
+            why = []
+            if "SF=fail" in ia:
+                why.append("the documented short form is stored as a different rule than its long form '%s:unsigned'" % unhx(t[2:]))
+            if "KW=fail" in ia:
+                why.append("the stored rule prints as '%s': not the time constraint / action the string names"
+                           % unhx(ia.split(" S=")[1].split()[0]))
+            fails.append({"kind": "property-fails-on-impl",
+                          "what": "Add stores a rule that is not the rule the string denotes: " + "; ".join(why),
+                          "lines": [t], "string": unhx(t[2:]), "impl": ia, "model": ib})
         elif ia != ib:
             fails.append({"kind": "correspondence-text", "lines": [t], "string": unhx(t[2:]), "impl": ia, "model": ib})
     for ha, hb in zip(hi, hm):
@@ -151,6 +163,10 @@ def split_sims(text):
             cur["p"] = l
         elif l.startswith("Z "):
             cur["z"] = l
+        elif l.startswith("D "):
+            cur["d"] = l
+        elif l.startswith("N "):
+            cur.setdefault("src", []).append(l[2:])
         elif l.startswith("A "):
             cur["alt"].append(l[2:])
         else:
@@ -225,7 +241,7 @@ def compare_sims(impl, model, stats, fails):
         if "z" in a:
             stats["suspension_differentials"] += 1
         if a.get("z") == "Z susp=fail":
-            info.update({"kind": "property-fails-on-impl", "verdict": verdict,
+            info.update({"kind": "property-fails-on-impl", "verdict": verdict, "sub": "susp",
                          "what": "a suspended rule has an effect: the run differs from the run with the suspended rules deleted"})
             fails.append(info)
             continue
@@ -233,13 +249,41 @@ def compare_sims(impl, model, stats, fails):
             continue
         first = next(((x, y) for x, y in zip(a["lines"] + ["<end>"] * 99, b["lines"] + ["<end>"] * 99) if x != y), ("", ""))
         info.update({"impl": first[0], "model": first[1], "verdict": verdict})
-        if has_periodic_set(a) and b["alt"] and a["lines"] == b["alt"]:
+        info["_src"] = b.get("src")
+        ik = [l for l in a["lines"] if l.startswith("K ")]
+        mk_ = [l for l in b["lines"] if l.startswith("K ")]
+        trace_agrees = verdict == "P ok" and ik == mk_[:len(ik)]
+        panicked = cls.startswith("X other") and "70616e6963" in cls   # "panic" in the hex of stderr's first line
+        if "d" in b:
+            # the implementation stored a rule that is not the rule its string denotes; the model's
+            # lines are the prediction from the strings
+            info["kind"] = "property-fails-on-impl"
+            info["sub"] = "decode"
+            info["what"] = ("the rule stored for an accepted string is not the rule the string denotes, and the simulation "
+                            "of the rule file differs from the one predicted from the strings: " + b["d"][2:])
+            fails.append(info)
+        elif panicked and not same:
+            info["kind"] = "impl-panic"
+            info["what"] = ("the real `bondmachine -sim` panics on an accepted rule file that the model runs to the end: "
+                            + unhx(cls.split()[-1]))
+            fails.append(info)
+        elif has_periodic_set(a) and b["alt"] and a["lines"] == b["alt"]:
             # exactly the recorded defect: the run equals the model with periodic sets never applied
             info["kind"] = "periodic-set-not-applied"
             fails.append(info)
         elif verdict.startswith("P fail"):
             info["kind"] = "property-fails-on-impl"
+            info["sub"] = "inject"
             info["what"] = "state handed to the machine step is not 'previous state + firing set rules': " + verdict[7:]
+            fails.append(info)
+        elif trace_agrees and ik:
+            # the machine trace (every IO dump the implementation printed) is the one the model predicts
+            # and injection is exact on it, so the model of the machine is confirmed on this run; what
+            # differs are the samples the rules report (show lines / report rows / exit)
+            info["kind"] = "property-fails-on-impl"
+            info["sub"] = "samples"
+            info["what"] = ("the samples reported by the show/get rules differ from those predicted from the active rules "
+                            "on a machine trace that agrees with the prediction (%d IO dumps equal, injection exact)" % len(ik))
             fails.append(info)
         else:
             info["kind"] = "correspondence-sim"
@@ -260,12 +304,22 @@ def replay_lines(hbin, cli, lines):
     return stats, fails
 
 
-def flatten_q(q, rules):
-    """Q line whose edits are add(+sus) of the final rule list (observer rules dropped)"""
+def flatten_q(q, rules, src=None):
+    """Q line whose edits are add(+sus) of the final rule list (observer rules dropped); when the
+    oracle supplied the original spelling of every surviving rule (N lines) those are used, so that
+    a short form stays a short form"""
     f = q.split()
     head = f[:5]
     edits = []
     n = 0
+    if src:
+        for ent in src:
+            h, su = ent.split()
+            edits.append("add:" + h)
+            if su == "1":
+                edits.append("sus:%d" % n)
+            n += 1
+        return head, edits
     rules = list(rules)
     # the harness appends the three observer rules itself
     if len(rules) >= 3 and all(rule_text(r) in OBSERVERS for r in rules[-3:]):
@@ -284,7 +338,7 @@ def flatten_q(q, rules):
 def shrink_sim(hbin, cli, fail):
     """greedy: drop rules, then ticks, while the same kind of failure persists"""
     try:
-        head, edits = flatten_q(fail["lines"][0], [r for r in fail.get("_rules_raw", [])])
+        head, edits = flatten_q(fail["lines"][0], [r for r in fail.get("_rules_raw", [])], fail.get("_src"))
     except Exception:
         return fail
     if not edits:
@@ -310,7 +364,7 @@ def shrink_sim(hbin, cli, fail):
 
     def attempt(h, gs):
         _, fs = replay_lines(hbin, cli, [" ".join(h + build(gs))])
-        fs = [x for x in fs if x["kind"] == fail["kind"]]
+        fs = [x for x in fs if x["kind"] == fail["kind"] and x.get("sub") == fail.get("sub")]
         return fs[0] if fs else None
 
     gs = groups(edits)
@@ -341,7 +395,7 @@ def new_stats():
     return {"strings": 0, "accepted": 0, "rejected": 0, "histories": 0, "edits": 0, "edits_rejected": 0,
             "prints_with_suspended": 0, "by_edit": {}, "forms": {}, "distinct": set(),
             "sims": 0, "ticks": 0, "exit": {}, "sim_rules": {}, "show_lines": 0, "report_rows": 0,
-            "distinct_sim": set(), "suspension_differentials": 0, "config_rules": {}}
+            "distinct_sim": set(), "suspension_differentials": 0, "config_rules": {}, "short_forms_checked": 0}
 
 
 def corpus_files():
@@ -408,10 +462,11 @@ def run(rep):
         "rule": "text: every documented example, the grid {absolute,relative}x{set,get,show}x{27 tick spellings}x{4,5 words}, "
                 "event and config forms with every option, every object mnemonic kind, seeded mostly-valid and malformed "
                 "strings; histories of add/del/suspend/reactivate (in and out of range) followed by JSON save+load; "
-                "sim: 25 fixed cases + seeded rule lists (absolute/periodic set, get, show, on-valid, on-exit, on-recv, config, "
+                "sim: 32 fixed cases + seeded rule lists (absolute/periodic set, get, show, on-valid, on-exit, on-recv, config, "
                 "suspended and deleted rules, rejected rules; one list in three opens with a bulk/plain config rule "
                 "(get_all, get_all_internal, show_all, show_all_internal x format, get_ticks, show_*), active or suspended, "
-                "followed by timed get/show rules in another format on elements it covers) on 3 machines run through the real CLI; "
+                "followed by timed get/show rules in another format on elements it covers; one in three mixes on-valid / on-exit "
+                "show and get rules (short and long forms) with timed shows on different elements in random order) on 3 machines run through the real CLI; "
                 "every list with a suspended rule is also run with the suspended rules deleted and compared byte for byte. non-trivial = distinct "
                 "accepted rules + distinct simulations that completed and injected, showed or reported something",
         "samples": samples or [{"note": "correspondence did not run"}],
@@ -445,10 +500,20 @@ def run(rep):
         f = real[0]
         if f["lines"] and f["lines"][0].startswith("Q "):
             f = shrink_sim(hbin, cli, f)
-        rep.violation({"property": PROP, "kind": f["kind"], "what": f.get("what", ""), "replay_lines": f["lines"],
-                       "string": f.get("string"), "rules": f.get("rules"), "setup": f.get("setup"),
-                       "impl": f.get("impl"), "model": f.get("model"), "verdict": f.get("verdict"),
-                       "replay": "python3 tools/check.py C15 --replay <this file>"})
+        obj = {"property": PROP, "kind": f["kind"], "what": f.get("what", ""), "replay_lines": list(f["lines"]),
+               "string": f.get("string"), "rules": f.get("rules"), "setup": f.get("setup"),
+               "impl": f.get("impl"), "model": f.get("model"), "verdict": f.get("verdict"),
+               "replay": "python3 tools/check.py C15 --replay <this file>"}
+        if f["lines"] and f["lines"][0].startswith("T "):
+            # a mis-decoded string: add the simulation in which the stored rule behaves differently
+            # from the rule the string denotes, if one was generated
+            sims = [x for x in real if x.get("sub") == "decode"]
+            if sims:
+                g = shrink_sim(hbin, cli, sims[0])
+                obj["simulation"] = {k: g.get(k) for k in ("what", "rules", "setup", "impl", "model")}
+                obj["simulation"]["replay_line"] = g["lines"][0]
+                obj["replay_lines"] += g["lines"]
+        rep.violation(obj)
     elif other or not pr["ok"]:
         broken = list(pr["broken"])
         detail = None
